@@ -45,6 +45,15 @@ progress / running_time (public accessors of the JobStatus, obtained without a r
 polls and sleeps of execute_sync.  Direct oracles for the new operations are in `extra_step`; the per-object oracles
 above keep running on re-created jobs.  `check_sync_clock` runs execute_sync under the real throttle (delay 1 s) and
 compares the ordered sequence of requests and sleeps with `syncLoopAt`.
+
+Second extension (`Model/C17R.lean`): `check_results` = histories of the results machine (`rstep`): get_results on the
+content of the server's answer (missing key, null, bad JSON, decoded values of every modelled shape, job_context /
+result_mapping / mapping_delta_parameters / results_list), compared step by step and judged directly (refused while
+unfinished, the server's failure message, every entry mapped exactly once with the iteration values overriding the
+delta parameters, a final job's returned value never changes and costs no request).  `check_clocked_ops` = histories of
+ALL operations under the shipped refresh delay with a scripted clock (`kstep`), compared step by step and judged
+directly (create once, no poll after final, streak law over the requests that reached the server, an overdue
+status-dependent call reaches the server).
 """
 from __future__ import annotations
 
@@ -2357,8 +2366,11 @@ def setup(chk):
         "the delay after the last request does",
         "the network is replaced at requests.get/requests.post of perceval.runtime.rpc_handler by a scripted fake "
         "returning genuine requests.Response objects; HTTP errors carry codes 400..599; `requests` itself is trusted",
-        "server status strings are ASCII; results carry no job_context (result mapping is not exercised); "
-        "time / progress fields of the status body are not compared",
+        "server status strings are ASCII; in the main and full machines results carry no job_context and the time / "
+        "progress fields of the status body are not compared (main machine); the results machine (part 9) feeds "
+        "get_results with the content shapes of Model/C17R.lean and a mapping function injected into sys.modules that "
+        "records its arguments; the clocked-operations part (10) serves the status answers by the position of the read "
+        "within the operation (first read r1, second r2), as the model assigns them",
         "job ids, status messages and result tokens are the position of the step in the history on both sides "
         "(freshness of a rerun id is the server's business)",
         "full machine: times are integers, progress a multiple of 1/4; the JobStatus of a sent job is read through the "
